@@ -587,6 +587,16 @@ pub fn c10(ctx: &Ctx) -> Report {
                     cases.push(c0);
                     continue;
                 }
+                if k == 0 && i == 0 && t % 4 == 1 {
+                    // data blocks beyond 64 KiB next to small ones (a size-dependent caching decision shows only here)
+                    let cfg = WCfg { cmp: CmpKind::Bytewise, block_size: 4096, restart: 16, snappy: false, pol: PolKind::Bloom(10) };
+                    let es = vec![(b"a".to_vec(), vec![0x61u8; 70_000]), (b"b".to_vec(), b"x".to_vec()), (b"c".to_vec(), vec![0x63u8; 66_000]), (b"d".to_vec(), b"y".to_vec())];
+                    if let Some(c) = build_case(d, rep, &cfg, &es) {
+                        rep.count("tables_with_blocks_beyond_64KiB");
+                        cases.push(c);
+                    }
+                    continue;
+                }
                 let mut cfg = gen_wcfg(rng);
                 cfg.cmp = CmpKind::Bytewise;
                 cfg.block_size = *rng.pick(&[8usize, 8, 20, 40]);
@@ -791,7 +801,7 @@ pub fn c10(ctx: &Ctx) -> Report {
 
 // ------------------------------------------------------------------------------------------- C14
 pub fn c14(ctx: &Ctx) -> Report {
-    let base = Report::new("C14", "scenario per table: open; full scan; lookups of all keys; seeks; then the fault schedule is cleared and scan + lookups are repeated. A fault (IOError / short by 1 / short to half / short to 0) is injected at the i-th read_at call for every i of the fault-free run (quick: every i for small scenarios, sampled i beyond 40 calls), at pairs (i,j), on every call within a window, and permanently from call i on; compared op by op with the model (results, read log, events, cache count); judge: open and lookups give the correct answer or an error; a scan yields in order only original entries and omits only whole blocks (block partition from the independent decoder); after the faults stop every operation returns the fully correct result (nothing read during a failure was cached); the deep-recursion clause is covered by witness D15 (150000 consecutive failing blocks in a child process); non-trivial = every faulted run; distinct by request");
+    let base = Report::new("C14", "scenario per table: open; full scan; lookups of all keys; seeks; then the fault schedule is cleared and scan + lookups are repeated; a second, cursor scenario (capacity 1): seek to the first entry of a later block, prev across the block boundary, next, next, each followed by current, with a fault at every data-block read, judged by position tracking (under faults: invalid or the exact position, forward steps may skip whole blocks; afterwards exact). A fault (IOError / short by 1 / short to half / short to 0) is injected at the i-th read_at call for every i of the fault-free run (quick: every i for small scenarios, sampled i beyond 40 calls), at pairs (i,j), on every call within a window, and permanently from call i on; compared op by op with the model (results, read log, events, cache count); judge: open and lookups give the correct answer or an error; a scan yields in order only original entries and omits only whole blocks (block partition from the independent decoder); after the faults stop every operation returns the fully correct result (nothing read during a failure was cached); the deep-recursion clause is covered by witness D15 (150000 consecutive failing blocks in a child process); non-trivial = every faulted run; distinct by request");
     let n = per_thread(ctx, 120, 1600);
     parallel(&ctx.driver, ctx.threads, ctx.seed, base, |t, d, rng, rep| {
         for i in 0..n {
@@ -969,6 +979,169 @@ pub fn c14(ctx: &Ctx) -> Report {
                 };
                 check_phase(rep, 1, false);
                 check_phase(rep, faulted_len + 1, true);
+            }
+            // ---- cursor scenario: positions reached by seek, then prev (across block boundaries: the previous block
+            // is not cached with capacity 1), then next; every step followed by `current`. Judged by position
+            // tracking: under faults a step ends invalid or where the fault-free cursor would be (a forward step may
+            // also land on the first entry of a later block: whole blocks skipped); afterwards every step is exact.
+            if !c.es.is_empty() {
+                let n_es = c.es.len();
+                let block_first: Vec<usize> = {
+                    let mut v = vec![];
+                    let mut at = 0;
+                    for b in blocks.iter() {
+                        if !b.is_empty() {
+                            v.push(at);
+                            at += b.len();
+                        }
+                    }
+                    v
+                };
+                let mut targets: Vec<usize> = block_first.iter().cloned().filter(|&x| x > 0).collect();
+                if targets.len() > 4 {
+                    let keep = rng.below(targets.len() - 3);
+                    targets = targets[keep..keep + 4].to_vec();
+                }
+                if targets.is_empty() {
+                    targets.push(rng.below(n_es));
+                }
+                let pattern = |ops: &mut Vec<Op>| {
+                    for &ti in targets.iter() {
+                        ops.push(Op::Seek(0, c.es[ti].0.clone()));
+                        ops.push(Op::Cur(0));
+                        ops.push(Op::Prev(0));
+                        ops.push(Op::Cur(0));
+                        ops.push(Op::Next(0));
+                        ops.push(Op::Cur(0));
+                        ops.push(Op::Next(0));
+                        ops.push(Op::Cur(0));
+                    }
+                };
+                let mut cops = vec![Op::Open { t: 0, file: 0, size: c.img.len(), cmp: c.cfg.cmp.clone(), pol: c.cfg.pol.clone() }, Op::Iter(0, 0)];
+                pattern(&mut cops);
+                let cfl = cops.len();
+                cops.push(Op::Faults(vec![]));
+                cops.push(Op::Next(0));
+                cops.push(Op::Cur(0));
+                cops.push(Op::Next(0));
+                cops.push(Op::Cur(0));
+                cops.push(Op::Prev(0));
+                cops.push(Op::Cur(0));
+                pattern(&mut cops);
+                let clean = Session { cap: 1, files: vec![c.img.clone()], faults: vec![], ops: cops.clone() };
+                let clean_out = clean.run_impl();
+                let mut rl: Vec<usize> = vec![];
+                for o in clean_out.iter().take(cfl) {
+                    let f: Vec<&str> = o.split('~').collect();
+                    if f.len() == 4 && f[1] != "." {
+                        for r in f[1].split('/') {
+                            rl.push(r.split(':').nth(2).and_then(|x| x.parse().ok()).unwrap_or(0));
+                        }
+                    }
+                }
+                // reads of the open (footer, index, metaindex, filter) come first: faults there are covered above
+                let open_reads = clean_out.get(0).map(|o| o.split('~').nth(1).map(|r| if r == "." { 0 } else { r.split('/').count() }).unwrap_or(0)).unwrap_or(0);
+                let orig: Vec<String> = c.es.iter().map(|e| show_kv(&Some(e.clone()))).collect();
+                let pos_of = |cur: &str| -> Option<Option<usize>> {
+                    if cur == "none" {
+                        Some(None)
+                    } else {
+                        orig.iter().position(|x| x == cur).map(Some)
+                    }
+                };
+                for ix in open_reads..rl.len() {
+                    let f = match rng.below(3) {
+                        0 => Fault::IoError,
+                        1 => Fault::Short(rl[ix].saturating_sub(1)),
+                        _ => Fault::Short(rl[ix] / 2),
+                    };
+                    let mut sched: Vec<Fault> = vec![Fault::None; ix];
+                    sched.push(f);
+                    if rng.chance(1, 3) {
+                        sched.push(Fault::IoError);
+                    }
+                    let s = Session { cap: 1, files: vec![c.img.clone()], faults: sched.clone(), ops: cops.clone() };
+                    rep.case(&s.request(), true);
+                    rep.count("cursor_fault_schedules");
+                    let out = compare_all(d, rep, &s);
+                    let mk = |what: &str, extra: Vec<(&'static str, J)>| {
+                        let mut v = vec![("what", J::s(what)), ("schedule", J::s(&faults_str(&sched))), ("cfg", J::s(&c.cfg.describe())), ("entries", J::s(&entries_str(&c.es))), ("ops", J::s(&ops_text(&cops))), ("image", J::s(&hex(&c.img)))];
+                        v.extend(extra);
+                        J::obj(v)
+                    };
+                    if out.len() != cops.len() {
+                        if out.iter().any(|o| o.starts_with("panic")) {
+                            rep.judge_fail(mk("a read failure makes the iterator panic", vec![("outputs", J::s(&out.join(";")))]));
+                        }
+                        continue;
+                    }
+                    let mut pos: Option<usize> = None; // spec position: None = invalid / before the first
+                    let known = true; // every step is followed by `current`, so the position is always observed
+                    let mut k = 2;
+                    while k + 1 < cops.len() {
+                        if let Op::Faults(_) = cops[k] {
+                            k += 1;
+                            continue;
+                        }
+                        let strict = k > cfl;
+                        let cur = it_out(&out[k + 1]);
+                        let q = match pos_of(&cur) {
+                            Some(q) => q,
+                            None => {
+                                rep.judge_fail(mk("the iterator exposes something that is not a stored entry", vec![("op_index", J::N(k as i64)), ("current", J::s(&cur))]));
+                                break;
+                            }
+                        };
+                        let mut bad: Option<String> = None;
+                        match &cops[k] {
+                            Op::Seek(_, key) => {
+                                let want = c.es.iter().position(|e| &e.0 == key);
+                                if !(q == want || (!strict && q.is_none())) {
+                                    bad = Some(format!("seek to a stored key ends at {:?}, the entry is at {:?}", q, want));
+                                }
+                            }
+                            Op::Prev(_) => {
+                                if known {
+                                    if let Some(pi) = pos {
+                                        let want = if pi == 0 { None } else { Some(pi - 1) };
+                                        if !(q == want || (!strict && q.is_none())) {
+                                            bad = Some(format!("prev from entry {} ends at {:?}", pi, q));
+                                        }
+                                    }
+                                }
+                            }
+                            Op::Next(_) => {
+                                let ret = it_out(&out[k]);
+                                if ret != cur && !(ret == "none" && cur == "none") {
+                                    bad = Some(format!("next returned {} but the iterator is at {}", ret, cur));
+                                } else if known {
+                                    let exact = match pos {
+                                        Some(pi) => if pi + 1 < n_es { Some(pi + 1) } else { None },
+                                        None => Some(0),
+                                    };
+                                    let fwd_ok = match (pos, q) {
+                                        (_, None) => true,
+                                        (Some(pi), Some(qi)) => qi > pi && (qi == pi + 1 || block_first.contains(&qi)),
+                                        (None, Some(qi)) => block_first.contains(&qi),
+                                    };
+                                    // after an invalid position reached through a FAILED step the restart point is not
+                                    // prescribed beyond "the first entry of a block"; from a valid position the step is exact
+                                    let ok = if strict { q == exact || (pos.is_none() && q.map(|qi| block_first.contains(&qi)).unwrap_or(false)) } else { fwd_ok };
+                                    if !ok {
+                                        bad = Some(format!("next from {:?} ends at {:?}", pos, q));
+                                    }
+                                }
+                            }
+                            _ => {}
+                        }
+                        if let Some(b) = bad {
+                            rep.judge_fail(mk(if strict { "after the source works again an iterator step is not correct" } else { "an iterator step under read failures ends neither invalid nor where the cursor over the original entries would be" }, vec![("op_index", J::N(k as i64)), ("detail", J::s(&b))]));
+                            break;
+                        }
+                        pos = q;
+                        k += 2;
+                    }
+                }
             }
             if i == 0 && t == 0 {
                 rep.sample(J::obj(vec![("cfg", J::s(&c.cfg.describe())), ("entries", J::s(&entries_str(&c.es))), ("read_calls", J::N(nreads as i64)), ("ops", J::s(&ops_text(&ops)))]));
